@@ -281,6 +281,15 @@ def run(ctx):
         bad = L.oracle_graded(c, o)
         if bad:
             mism.append(dict(oracle_fail=True, case=c, got={k: o.get(k) for k in ("ok", "err", "k", "eigs", "off", "diag")}, failed_clauses=bad))
+    # start vectors of a narrower dtype than the operator (float32 / complex64), also with norms near the underflow of the squared norm
+    narrow = [L.gen_narrow_start(ctx.rng, nmax=min(nmax, 10)) for _ in range(ctx.budget(40, 200))]
+    if "lanczos_start_dtype_cast" in present:
+        narrow = []
+    for c in narrow:
+        o = L.run_impl(c)
+        bad = L.oracle(c, o, check_span=False)
+        if bad:
+            mism.append(dict(oracle_fail=True, case=c, got={k: o.get(k) for k in ("ok", "err", "k", "shapes", "off", "diag")}, failed_clauses=bad))
     for c in gone_region + big:
         o = L.run_impl(c)
         bad = L.oracle(c, o, check_span=c["n"] <= 64)
@@ -301,7 +310,7 @@ def run(ctx):
             m = min(c["max_iters"], c["n"])
             eh["early" if o["k"] < m else "cap"] = eh.get("early" if o["k"] < m else "cap", 0) + 1
     return dict(
-        evaluations=len(cases) + len(gone_region) + len(big) + len(mixed) + len(exact) + len(weak) + len(graded), distinct_nontrivial=distinct,
+        evaluations=len(cases) + len(gone_region) + len(big) + len(mixed) + len(exact) + len(weak) + len(graded) + len(narrow), distinct_nontrivial=distinct,
         rule="Hermitian operators n<=%d (dense/PSD/Sum/Product/Diagonal/ScalarMul/Kronecker/Tridiagonal/matmat-defined; real and complex; gaussian, definite, indefinite, "
              "repeated and clustered spectra), starts random/few eigenvectors/exact eigenvectors/scaled, 1-D and batched, max_iters 1..n+3, ten tolerances; "
              "non-trivial = n>=3 and >=2 columns returned; distinct by hash of (operator data, start, max_iters, tol)" % nmax,
@@ -311,7 +320,7 @@ def run(ctx):
         extra=dict(compared_in_coq=len(idx) + alias_wit, model_stopping_test=("repaired" if rfix else "pinned"), alias_witness_compared=alias_wit, max_model_impl_difference=maxdiff, tolerance=1e-9, near_tie=hist.get(1, 0), noise_amplified_skipped=hist.get(2, 0), agree=hist.get(0, 0),
                    kind_histogram=kh, start_histogram=sh, max_iters_vs_n=mh, exit_histogram=eh,
                    complex_cases=sum(1 for c in cases if c["cplx"]), batched_cases=sum(1 for c in cases if c["batch"]),
-                   avoided_regions=avoided, weak_coupling_eigs_cases=len(weak), graded_eigs_cases=len(graded), no_start_vector_cases=len(nostart), exact_stream_cases=len(exact), exact_stream_tol0=sum(1 for c in exact if c['tol'] == 0.0), mixed_batches_used=len(mixed), batch_elements_vs_single_start=elem_compared, defect_free_region_cases=len(gone_region), large_oracle_only=len(big),
+                   avoided_regions=avoided, weak_coupling_eigs_cases=len(weak), graded_eigs_cases=len(graded), narrow_dtype_start_cases=len(narrow), no_start_vector_cases=len(nostart), exact_stream_cases=len(exact), exact_stream_tol0=sum(1 for c in exact if c['tol'] == 0.0), mixed_batches_used=len(mixed), batch_elements_vs_single_start=elem_compared, defect_free_region_cases=len(gone_region), large_oracle_only=len(big),
                    impl_exceptions=sum(1 for o in obs if not o.get("ok"))))
 
 
